@@ -65,6 +65,13 @@ def tdesign(kind, wire_dir='clockwise', rings=3):
         return S.design(2, pd=1.3, oftf=OFTF, clearance='loose', wire_dir=wire_dir)
     if kind == 'U':      # the same bundle run with the low-fidelity model
         return S.design(rings, lowfi={'model': 'simple'}, **kw)
+    if kind in ('six', 'one'):
+        # the bundle between two un-rodded regions (six-sector model / single node); the recorded planes at 0.34 L
+        # and L lie inside them
+        m = '6node' if kind == 'six' else 'simple'
+        return S.design(rings, regions={'lower': {'z_lo': 0.0, 'z_hi': round(0.4 * L, 9), 'vf_coolant': 0.3, 'model': m},
+                                        'upper': {'z_lo': round(0.8 * L, 9), 'z_hi': L, 'vf_coolant': 0.35, 'model': m}},
+                        **kw)
     raise ValueError(kind)
 
 
@@ -120,9 +127,16 @@ def moved_power(w, lay, G, nduct):
     return out, perms
 
 
+# the six sectors / wall cells of an un-rodded region, in DASSH's order (published by the one-ring Subchannel of the
+# six-sector model: clockwise from the sector at +30 degrees)
+SIX = np.array([[math.cos(math.radians(a_)), math.sin(math.radians(a_))] for a_ in (30, -30, -90, -150, 150, 90)])
+
+
 def fields(a):
     reg = a.active_region
     f = {'cool': reg.temp['coolant_int'].copy()}
+    if not reg.is_rodded:
+        f['_six'] = np.zeros(1)
     for d in range(reg.temp['duct_mw'].shape[0]):
         f['mw%d' % d] = reg.temp['duct_mw'][d].copy()
         f['si%d' % d] = reg.temp['duct_surf'][d, 0].copy()
@@ -136,7 +150,12 @@ def fields(a):
     return f
 
 
-def field_perm(name, perms):
+def field_perm(name, perms, rec=None, G=None):
+    if rec is not None and '_six' in rec:
+        # un-rodded region: six sectors (or one node) and six wall cells
+        if name == 'cool' and len(rec['cool']) == 1:
+            return np.zeros(1, dtype=int)
+        return perm_of(SIX, G)
     if name == 'cool':
         return perms['cool']
     if name.startswith('pin'):
@@ -207,7 +226,9 @@ def run_asm(c):
             continue
         for (fb, gb), (fg, gg) in zip(base, got):
             for name, v in fb[0].items():
-                p = field_perm(name, perms)
+                if name.startswith('_'):
+                    continue
+                p = field_perm(name, perms, fb[0], G)
                 dev = float(np.max(np.abs(move(v, p) - fg[0][name])))
                 worst = max(worst, dev)
                 if dev > TOL:
@@ -229,7 +250,8 @@ def run_asm(c):
             bad, _, _ = sweep_record(scn_for(w2, wd))
             r['traces'] += 1
             name = 'cool'
-            dev = float(np.max(np.abs(move(base[-1][0][0][name], perms['cool']) - bad[-1][0][0][name])))
+            kb = max(k_ for k_ in range(len(base)) if '_six' not in base[k_][0][0])    # last plane inside the bundle
+            dev = float(np.max(np.abs(move(base[kb][0][0][name], perms['cool']) - bad[kb][0][0][name])))
             r['extra'] = {'mirror_teeth_K': [round(dev, 3)]}
             if not dev > 1e-3:
                 V.append(violation('oracle-has-no-teeth', dict(c, g='m-unreversed'),
@@ -295,7 +317,8 @@ def run_core(c):
     gm = c['gap_model']
     seed = c.get('seed', 0)
     # per-type coordinates and base power weights per position
-    types = {t: tdesign({'A': 'single', 'B': 'B', 'D': 'bypass'}[t]) for t in sorted(set(x for x in lay if x))}
+    types = {t: tdesign({'A': 'single', 'B': 'B', 'D': 'bypass', 'S': 'six', 'T': 'one'}[t])
+             for t in sorted(set(x for x in lay if x))}
     coord = {}
     for t in types:
         scn = {'setup': {}, 'core': {'inlet': 623.15, 'length': L, 'pitch': 0.064, 'gap_model': 'none', 'bypass_fraction': 0.0},
@@ -379,7 +402,9 @@ def run_core(c):
             for ai, i in enumerate(order0):
                 aj = order2.index(int(pp[i]))
                 for name, v in fb[ai].items():
-                    p = field_perm(name, permmap[i])
+                    if name.startswith('_'):
+                        continue
+                    p = field_perm(name, permmap[i], fb[ai], G)
                     dev = float(np.max(np.abs(move(v, p) - fg[aj][name])))
                     worst = max(worst, dev)
                     if dev > TOL:
@@ -429,6 +454,10 @@ def cases(tier):
                     if tier == 'quick' and kind == 'pins' and rings == 4:
                         continue
                     asm.append(dict(rings=rings, kind=kind, wire=wire, wall=wall, elements=elems))
+    for kind in ('six', 'one'):
+        for wire in ('clockwise', 'counterclockwise'):
+            for wall in ('none', 'flow'):
+                asm.append(dict(rings=3, kind=kind, wire=wire, wall=wall, elements=elems))
     if tier == 'quick':
         lays = [['A'] * 7, ['A', 'B', 'A', 'B', 'A', 'B', 'A'], ['B', 'A', None, 'A', 'A', 'B', 'A'],
                 [None, 'A', 'A', None, 'B', 'A', 'B'], ['A', 'D', 'B', None, 'A', 'A', 'B']]
@@ -439,6 +468,10 @@ def cases(tier):
         # several positions of one double-duct type with different flows (clones of one template)
         for gm in ('flow', 'none'):
             core.append(dict(layout=['D', 'D', 'A', 'D', 'B', 'D', 'A'], gap_model=gm, elements=[1, 2]))
+        # bundles between un-rodded regions (six-sector model, single node) in uneven surroundings
+        for lay in (['S', 'A', 'B', None, 'S', 'T', 'A'], ['T', 'S', 'S', 'B', None, 'A', 'S']):
+            for gm in ('flow', 'no_flow'):
+                core.append(dict(layout=lay, gap_model=gm, elements=[1, 2, 3]))
         # low-flow approximation requested, one starved assembly
         for st in (2, 5):
             core.append(dict(layout=['A'] * 7, gap_model='flow', elements=[1, 2, 3], starved=st))
@@ -473,6 +506,10 @@ def cases(tier):
         for gm in ('flow', 'none', 'no_flow'):
             for lay in (['D', 'D', 'A', 'D', 'B', 'D', 'A'], ['D'] * 7, ['A', 'D', 'D', None, 'D', 'B', 'D']):
                 core.append(dict(layout=lay, gap_model=gm, elements=[1, 2, 3, 4, 5]))
+        for lay in (['S', 'A', 'B', None, 'S', 'T', 'A'], ['T', 'S', 'S', 'B', None, 'A', 'S'], ['S'] * 7,
+                    ['A', 'S', None, 'T', 'B', 'S', 'A']):
+            for gm in ('flow', 'no_flow', 'duct_average'):
+                core.append(dict(layout=lay, gap_model=gm, elements=[1, 2, 3, 4, 5]))
         for st in range(7):
             for gm in ('flow', 'none'):
                 core.append(dict(layout=['A'] * 7, gap_model=gm, elements=[1, 2, 3, 4, 5], starved=st))
@@ -489,7 +526,7 @@ def cases(tier):
 
 
 def main(run):
-    run.rule = ('assembly level: rings x (single duct, bypass, pin model) x wire direction x wall x all 5 rotations and '
+    run.rule = ('assembly level: rings x (single duct, bypass, pin model; 3 rings: bundle between six-sector / single-node regions) x wire direction x wall x all 5 rotations and '
                 'the mirror; core level: listed 7/19-position layouts (thorough: every subset x {A,B} with >= 2 '
                 'assemblies) x gap model x rotations; non-trivial = asymmetric power map (all), cores with >= 2 assemblies')
     run.assumptions = ['permutations by nearest-point matching of published coordinates (hard assert < 1e-8 m, bijective)',
